@@ -30,10 +30,10 @@ REQUIRED_FUNCS = ["sempler/normal_distribution.py:NormalDistribution.conditional
                   "sempler/normal_distribution.py:NormalDistribution.__init__", "sempler/utils.py:matrix_block"]
 REQUIRED_COUNTERS = {"quick": {"judged:conditional": 10000, "judged:marginal": 3000, "error:overlap": 300, "error:size-mismatch": 300,
                                "error:ctor-mismatch": 100, "meta:cond-on-nothing": 300, "meta:marginal-compose": 300, "meta:two-step": 300,
-                               "form:scalar-int": 300, "form:ndarray": 300, "order:Y-not-increasing": 1000, "order:X-not-increasing": 1000},
+                               "form:scalar-int": 300, "form:ndarray": 300, "form:range": 300, "form:range-descending-to-0": 100, "error:ctor-mismatch-scalar-forms": 300, "order:Y-not-increasing": 1000, "order:X-not-increasing": 1000},
                      "thorough": {"judged:conditional": 100000, "judged:marginal": 30000, "error:overlap": 3000, "error:size-mismatch": 3000,
                                   "error:ctor-mismatch": 1000, "meta:cond-on-nothing": 3000, "meta:marginal-compose": 3000, "meta:two-step": 3000,
-                                  "form:scalar-int": 3000, "form:ndarray": 3000, "order:Y-not-increasing": 10000, "order:X-not-increasing": 10000}}
+                                  "form:scalar-int": 3000, "form:ndarray": 3000, "form:range": 3000, "form:range-descending-to-0": 1000, "error:ctor-mismatch-scalar-forms": 3000, "order:Y-not-increasing": 10000, "order:X-not-increasing": 10000}}
 N = {"quick": 4000, "thorough": 500000}
 EPS = 2.0 ** -52
 
@@ -137,7 +137,22 @@ def gen(tier, seed, shard, nshards):
             far = 1e6 if rng.random() < 0.05 else 1.0        # now and then condition on a value very far out
             x = [float(np.asarray(mean, dtype=float)[j] + far * sd[j] * v) for j, v in zip(Xs, rng.normal(size=len(Xs)) * 2)]
             queries.append({"Y": Y, "X": Xs, "x": x, "form": int(rng.integers(0, 9))})
+        # index collections given as range objects: ascending, descending down to 0, stepped (form 9)
+        rqs = [list(range(p - 1, -1, -1)), list(range(0, p))]
+        if p >= 2:
+            a = int(rng.integers(1, p))
+            rqs += [list(range(a, -1, -1)), list(range(0, p, 2)), list(range(p - 1, -1, -2)), list(range(a, p))]
+        for Y in rqs[:4] if k % 2 else rqs[-4:]:
+            rest = [v for v in range(p) if v not in Y]
+            rx = [rest[:], rest[::-1], []][int(rng.integers(0, 3))]
+            rx = rx if _is_progression(rx) else []
+            x = [float(np.asarray(mean, dtype=float)[j] + sd[j] * v) for j, v in zip(rx, rng.normal(size=len(rx)) * 2)]
+            queries.append({"Y": Y, "X": rx, "x": x, "form": 9})
         yield "dist", {"mean": mean, "cov": cov, "queries": queries, "k": k}
+
+
+def _is_progression(idx):
+    return len(idx) >= 1 and all(idx[i + 1] - idx[i] == idx[1] - idx[0] for i in range(len(idx) - 1)) and (len(idx) == 1 or idx[1] != idx[0])
 
 
 def _form(idx, form):
@@ -150,6 +165,9 @@ def _form(idx, form):
         return np.array(idx, dtype=int)
     if form == 3:
         return [np.int64(v) for v in idx]
+    if form == 9 and _is_progression(list(idx)):
+        step = idx[1] - idx[0] if len(idx) > 1 else 1
+        return range(idx[0], idx[-1] + (1 if step > 0 else -1), step)
     if form in (5, 6, 7, 8):
         # index arrays of a narrow integer dtype (the indices themselves always fit)
         return np.array(idx, dtype=(np.int8, np.uint8, np.int16, np.int32)[form - 5])
@@ -205,8 +223,12 @@ def judge(family, case, rec):
             rec.count("form:scalar-int")
         if q["form"] == 2:
             rec.count("form:ndarray")
-        if q["form"] >= 5:
+        if 5 <= q["form"] <= 8:
             rec.count("form:narrow-int-index-array")
+        if q["form"] == 9:
+            rec.count("form:range")
+            if len(Y) > 1 and Y[-1] == 0:
+                rec.count("form:range-descending-to-0")
         if p >= 12:
             rec.count("many-variables(p>=12)")
         ctx = {"Y": Y, "X": Xs, "x": x}
@@ -357,6 +379,21 @@ def judge(family, case, rec):
             rec.violation("C05:ctor-no-valueerror", family, case, "constructor accepted a mean of length %d with a %dx%d covariance" % (len(bad_mean), p, p))
         except ValueError:
             rec.count("error:ctor-mismatch")
+        except Exception as e:
+            rec.exception_violation("C05:ctor-mismatch-other-exception", family, case, "size mismatch raised a non-ValueError", e)
+    # ... and the less usual shapes of the same mistake: a scalar / 0-d / 1x1 covariance next to a longer mean, a scalar mean next
+    # to a p x p covariance (len(mean) != len(covariance) in every one of them)
+    c00 = float(np.asarray(cov, dtype=float)[0, 0])
+    bads = [([0.0, 1.0], c00), (np.zeros(3), np.float64(c00)), ([0.0, 1.0], np.array(c00)), ((0.0, 1.0), [[c00]]), (np.zeros(p + 1), [[c00]] if p == 1 else cov.tolist())]
+    if p >= 2:
+        bads += [(float(mf[0]), cov), (np.float64(mf[0]), cov.tolist()), ([float(mf[0])], cov)]
+    for bm, bc in bads:
+        try:
+            sempler.NormalDistribution(bm, bc)
+            rec.violation("C05:ctor-no-valueerror", family, case, "constructor accepted mean %r with covariance of shape %s"
+                          % (bm, np.shape(bc)), bad_mean=np.atleast_1d(bm), bad_cov=np.atleast_2d(bc))
+        except ValueError:
+            rec.count("error:ctor-mismatch-scalar-forms")
         except Exception as e:
             rec.exception_violation("C05:ctor-mismatch-other-exception", family, case, "size mismatch raised a non-ValueError", e)
     if not (np.array_equal(mean, mean0) and np.array_equal(cov, cov0)):
